@@ -50,6 +50,9 @@ type c08CLIParams struct {
 	// Env: "" | logdir (LOG_FILE_PATH names a directory: the log file cannot be created) |
 	// gateway503 (PROMETHEUS_PUSH_GATEWAY names a gateway that answers 503 to every push)
 	Env string `json:"env,omitempty"`
+	// IgnoreForm: how the boolean flag is spelt on the command line: "" (bare when on, absent when off) | "=" (always
+	// spelt --ignore-dropped=<value>)
+	IgnoreForm string `json:"ignore_form,omitempty"`
 }
 
 type c08RunVerdictParams struct {
@@ -296,6 +299,19 @@ func init() {
 					p.Quiet = r.IntN(2) == 0
 				}
 				c := core.MkCase("C08", "cli", k, seed, p)
+				c.Solo = true
+				c.TimeoutMS = 60000
+				cs = append(cs, c)
+			}
+			// the boolean flag spelt with a value, both ways, on runs that drop; rate tolerances at and beyond 100 percent
+			// with failing iterations and no max-failures
+			for i := 0; i < 6; i++ {
+				p := c08CLIParams{Mode: "drops", N: 3, Conc: 1, Ignore: i%2 == 0, IgnoreForm: "="}
+				if i >= 2 {
+					n := pick(r, 3, 10, 17)
+					p = c08CLIParams{Mode: "users", N: n, Conc: 1 + r.IntN(3), MaxR: []int{100, 150, 100, 1000}[i-2], Fail: []int{1, n, n / 2, n}[i-2], IgnoreForm: pick(r, "", "=")}
+				}
+				c := core.MkCase("C08", "cli", 900+i, seed, p)
 				c.Solo = true
 				c.TimeoutMS = 60000
 				cs = append(cs, c)
@@ -612,7 +628,9 @@ func c08CLI(c *core.Case, o *core.Outcome) {
 	switch {
 	case p.Mode == "drops":
 		args = append(args, "constant", "-r", "5/50ms", "--distribution", "none", "-c", "1", "-d", "600ms", "sc")
-		if p.Ignore {
+		if p.IgnoreForm == "=" {
+			args = append(args, fmt.Sprintf("--ignore-dropped=%v", p.Ignore))
+		} else if p.Ignore {
 			args = append(args, "--ignore-dropped")
 		}
 		go func() { time.Sleep(300 * time.Millisecond); close(gate) }()
@@ -629,7 +647,9 @@ func c08CLI(c *core.Case, o *core.Outcome) {
 	default:
 		args = append(args, "users", "-c", fmt.Sprint(max(p.Conc, 1)), "-i", fmt.Sprint(p.N), "-d", "30s",
 			"--max-failures", fmt.Sprint(p.MaxF), "--max-failures-rate", fmt.Sprint(p.MaxR), "sc")
-		if p.Ignore {
+		if p.IgnoreForm == "=" {
+			args = append(args, fmt.Sprintf("--ignore-dropped=%v", p.Ignore))
+		} else if p.Ignore {
 			args = append(args, "--ignore-dropped")
 		}
 	}
